@@ -68,6 +68,31 @@ def translate(repo):
     m = re.search(r"patch\[0\] = (\w+);\s*patch\[1\] = (\w+);", arm)
     C["ARM_T16_NOP"] = [num(m.group(1)), num(m.group(2))] if m else [-1]
     C["ARM_ROTATE"] = find(arm, r"patch\.rotate_right\((\d+)\);")
+    # the lifetime machine's configuration (src/interface): 1 = the shape the model assumes was found, 0 = it was not
+    ri = lambda p: open(os.path.join(repo, "src", "interface", p)).read()
+    inj, ver = ri("injector.rs"), ri("verifier.rs")
+    def body_of(src, header):
+        i = src.find(header)
+        if i < 0: return ""
+        j = src.find("{", i); depth = 0
+        for k in range(j, len(src)):
+            if src[k] == "{": depth += 1
+            elif src[k] == "}":
+                depth -= 1
+                if depth == 0: return re.sub(r"//[^\n]*", "", src[j + 1:k])
+        return ""
+    we = body_of(inj, "pub fn will_execute(self")
+    st, raw = we.find(".store(0"), we.find("will_execute_raw(")
+    C["WILL_EXECUTE_RESETS_COUNTER"] = 1 if 0 <= st < raw else 0
+    dr = body_of(body_of(inj, "impl Drop for InjectorPP"), "fn drop(&mut self)").strip()
+    C["DROP_POPS_GUARDS_NEWEST_FIRST"] = 1 if re.match(r"while let Some\((\w+)\) = self\.guards\.pop\(\) \{\s*drop\(\1\);\s*\}\s*$", dr) else 0
+    vd = body_of(body_of(ver, "impl Drop for CallCountVerifier"), "fn drop(&mut self)")
+    pk, pn = vd.find("std::thread::panicking()"), vd.find("panic!(")
+    C["VERIFIER_SILENT_WHEN_PANICKING"] = 1 if 0 <= pk < pn and re.search(r"if std::thread::panicking\(\) \{\s*return;\s*\}", vd) else 0
+    C["VERIFIER_COMPARES_NE"] = 1 if re.search(r"if call_times != \*expected \{", vd) else 0
+    fields = re.search(r"pub struct InjectorPP \{(.*?)\n\}", inj, re.S)
+    names = re.findall(r"^\s*(?:pub(?:\([a-z]+\))? )?(\w+):", re.sub(r"//[^\n]*", "", fields.group(1)), re.M) if fields else []
+    C["LOCK_FIELD_DROPPED_LAST"] = 1 if names and names[-1] == "_lock" and "guards" in names and "verifiers" in names and names.index("guards") < names.index("verifiers") else 0
     return C
 
 def to_coq(C):
